@@ -7,6 +7,7 @@ import (
 	"strconv"
 	"strings"
 
+	"github.com/MichaelMure/git-bug/entities/bug"
 	"github.com/MichaelMure/git-bug/entity/dag"
 	"github.com/MichaelMure/git-bug/repository"
 )
@@ -37,6 +38,9 @@ type commitJ struct {
 }
 
 const bugFormatVersion = 4
+
+// authorKnown, when set, tells whether the identity an operation pack names exists locally.
+var authorKnown func(repo repository.RepoData, id string) bool
 
 func sha256hex(b []byte) string {
 	h := sha256.Sum256(b)
@@ -88,13 +92,47 @@ func decodeCommit(repo repository.RepoData, c repository.Commit) commitJ {
 				out.Err = "decode"
 				return out
 			}
+			if authorKnown != nil && !authorKnown(repo, aux.Author.Id) {
+				out.Err = "decode" // the author cannot be resolved
+				return out
+			}
 			p.Id = sha256hex(data)
 			p.Author = aux.Author.Id
 			for _, raw := range aux.Ops {
 				var t struct {
 					Type int `json:"type"`
 				}
-				json.Unmarshal(raw, &t)
+				if err := json.Unmarshal(raw, &t); err != nil {
+					out.Err = "decode"
+					return out
+				}
+				// the operation must decode into the struct of its type (public types of the format)
+				var target any
+				switch t.Type {
+				case 1:
+					target = &bug.CreateOperation{}
+				case 2:
+					target = &bug.SetTitleOperation{}
+				case 3:
+					target = &bug.AddCommentOperation{}
+				case 4:
+					target = &bug.SetStatusOperation{}
+				case 5:
+					target = &bug.LabelChangeOperation{}
+				case 6:
+					target = &bug.EditCommentOperation{}
+				case 7:
+					target = &dag.NoOpOperation[*bug.Snapshot]{}
+				case 8:
+					target = &dag.SetMetadataOperation[*bug.Snapshot]{}
+				default:
+					out.Err = "decode"
+					return out
+				}
+				if err := json.Unmarshal(raw, target); err != nil {
+					out.Err = "decode"
+					return out
+				}
 				p.Ops = append(p.Ops, opTokJ{Id: sha256hex(raw), Kind: t.Type, Valid: true})
 			}
 		case strings.HasPrefix(e.Name, "create-clock-"):
@@ -217,7 +255,7 @@ func readErrClass(err error) string {
 		return "clockJump"
 	case strings.Contains(m, "lamport edit time is zero"), strings.Contains(m, "different author than"):
 		return "invalidPack"
-	case strings.Contains(m, "doesn't exist"):
+	case m == "bug doesn't exist":
 		return "notFound"
 	}
 	return "decode"
